@@ -273,7 +273,13 @@ def sim_open(file, mode='r', *args, **kwargs):  # pylint: disable=keyword-arg-be
         return builtins.open(file, mode, *args, **kwargs)
     mut = any(c in mode for c in 'wxa+')
     sim.point('open:' + mode, file, mut)
-    raw = builtins.open(file, mode, *args, **kwargs)
+    try:
+        raw = builtins.open(file, mode, *args, **kwargs)
+    except FileNotFoundError:
+        # probe: the library located a file (through the index or a listing) that is gone when it opens it - the
+        # situation its fallbacks (re-query after closing the session, LazyLooseStream retry) exist for
+        sim.probes['open_enoent_' + rel.split('/')[1 if '/' in rel else 0] + '_in_' + sys._getframe(1).f_code.co_name] += 1  # pylint: disable=protected-access
+        raise
     return SimFile(sim, raw, rel, mode)
 
 
